@@ -1,12 +1,16 @@
 package props
 
 import (
+	"bytes"
+	"encoding/json"
 	"fmt"
 	"os"
+	"strings"
 	"testing"
 
 	"github.com/vektah/gqlparser/v2"
 	"github.com/vektah/gqlparser/v2/ast"
+	gqlformatter "github.com/vektah/gqlparser/v2/formatter"
 	"pgregory.net/rapid"
 
 	"verif/harness/ev"
@@ -83,4 +87,160 @@ func TestDbgAvoidLeaks(t *testing.T) {
 			fmt.Println("LEAK:", c.Op.Query)
 		}
 	})
+}
+
+// TestDbgShrinkExec greedily shrinks the operation of an exec case file (VERIF_PLAN) while checkC01 keeps failing with a
+// signature that starts with VERIF_DUMP (default "data-mismatch"); the result is written next to the input as *.min.json.
+func TestDbgShrinkExec(t *testing.T) {
+	path := os.Getenv("VERIF_PLAN")
+	if path == "" {
+		t.Skip()
+	}
+	want := os.Getenv("VERIF_DUMP")
+	if want == "" {
+		want = "data-mismatch"
+	}
+	var c ExecCase
+	if _, _, err := ev.LoadCase(path, &c); err != nil {
+		t.Fatal(err)
+	}
+	union, err := c.World.UnionSchema()
+	if err != nil {
+		t.Fatal(err)
+	}
+	fails := func(q string) bool {
+		cc := c
+		cc.Op.Query = q
+		if closedGateIn(caseFeatures(&cc)) != "" {
+			return false // stays outside the classes of open findings ($VERIF_GATES)
+		}
+		f, out := checkC01(&cc)
+		return f != nil && (out == nil || out.Skip == "") && strings.HasPrefix(f.Signature, want)
+	}
+	if !fails(c.Op.Query) {
+		t.Fatalf("the case does not fail with %s", want)
+	}
+	render := func(doc *ast.QueryDocument) string {
+		// drop unused variables and fragments so that the edited document stays valid
+		var buf bytes.Buffer
+		gqlformatter.NewFormatter(&buf).FormatQueryDocument(doc)
+		s := buf.String()
+		for _, o := range doc.Operations {
+			var keep ast.VariableDefinitionList
+			for _, vd := range o.VariableDefinitions {
+				if strings.Count(s, "$"+vd.Variable) > 1 {
+					keep = append(keep, vd)
+				}
+			}
+			o.VariableDefinitions = keep
+		}
+		var frs ast.FragmentDefinitionList
+		for _, fd := range doc.Fragments {
+			if strings.Contains(s, "..."+fd.Name) || strings.Contains(s, "... "+fd.Name) {
+				frs = append(frs, fd)
+			}
+		}
+		doc.Fragments = frs
+		buf.Reset()
+		gqlformatter.NewFormatter(&buf).FormatQueryDocument(doc)
+		return buf.String()
+	}
+	cur := c.Op.Query
+	for round := 0; round < 50; round++ {
+		progress := false
+		// count deletable positions on a fresh parse, then try each
+		doc, errs := gqlparser.LoadQuery(union, cur)
+		if errs != nil {
+			t.Fatalf("current query invalid: %v", errs)
+		}
+		var count func(ss ast.SelectionSet) int
+		count = func(ss ast.SelectionSet) int {
+			n := 0
+			for _, sel := range ss {
+				n++
+				switch x := sel.(type) {
+				case *ast.Field:
+					n += count(x.SelectionSet)
+				case *ast.InlineFragment:
+					n += count(x.SelectionSet)
+				}
+			}
+			return n
+		}
+		total := 0
+		for _, o := range doc.Operations {
+			total += count(o.SelectionSet)
+		}
+		for _, fd := range doc.Fragments {
+			total += count(fd.SelectionSet)
+		}
+		for idx := total - 1; idx >= 0; idx-- {
+			d2, errs := gqlparser.LoadQuery(union, cur)
+			if errs != nil {
+				break
+			}
+			k := 0
+			var del func(ss ast.SelectionSet) (ast.SelectionSet, bool)
+			del = func(ss ast.SelectionSet) (ast.SelectionSet, bool) {
+				for i, sel := range ss {
+					if k == idx {
+						k++
+						if len(ss) == 1 {
+							return ss, false
+						}
+						return append(append(ast.SelectionSet{}, ss[:i]...), ss[i+1:]...), true
+					}
+					k++
+					switch x := sel.(type) {
+					case *ast.Field:
+						if ns, ok := del(x.SelectionSet); ok {
+							x.SelectionSet = ns
+							return ss, true
+						}
+					case *ast.InlineFragment:
+						if ns, ok := del(x.SelectionSet); ok {
+							x.SelectionSet = ns
+							return ss, true
+						}
+					}
+				}
+				return ss, false
+			}
+			done := false
+			for _, o := range d2.Operations {
+				if ns, ok := del(o.SelectionSet); ok {
+					o.SelectionSet = ns
+					done = true
+					break
+				}
+			}
+			if !done {
+				for _, fd := range d2.Fragments {
+					if ns, ok := del(fd.SelectionSet); ok {
+						fd.SelectionSet = ns
+						done = true
+						break
+					}
+				}
+			}
+			if !done {
+				continue
+			}
+			q := render(d2)
+			if _, errs := gqlparser.LoadQuery(union, q); errs != nil {
+				continue
+			}
+			if fails(q) {
+				cur = q
+				progress = true
+			}
+		}
+		if !progress {
+			break
+		}
+	}
+	c.Op.Query = cur
+	fmt.Println("MIN:", strings.Join(strings.Fields(cur), " "))
+	b, _ := json.MarshalIndent(map[string]interface{}{"property": "C01", "signature": want, "case": c}, "", " ")
+	os.WriteFile(strings.TrimSuffix(path, ".json")+".min.json", b, 0o644)
 }
